@@ -37,6 +37,9 @@ var Pool = []ReSpec{
 	{Name: "multiline", Pattern: `^(\w+)$`, Opts: regexp2.Multiline},
 	// a limit that doubling from the initial 64 slots cannot reach: the last growth step is capped
 	{Name: "stack65", Pattern: `^(?:ab)*c`, Stack: 65},
+	// a left-to-right pattern whose lookbehind runs right-to-left opcodes, with a limit that long inputs hit
+	// while such an opcode is executing: per-call interpreter flags must be re-initialised by the next call
+	{Name: "lookbehind100", Pattern: `\w(?<=^(?:z[ab]*|(\w))+)`, Stack: 100},
 }
 
 // Compile builds a fresh Regexp for the spec.
